@@ -12,7 +12,7 @@ DEFAULT = {
     "w": {  # operation weights
         "apply": 6, "map": 7, "start": 6, "cancel": 4, "cancel_group": 3, "cancel_all": 1,
         "stop": 3, "flush": 2, "lock": 1, "unlock": 1, "open": 5, "y": 6, "idle": 3,
-        "intruder": 2, "probe": 0.5, "gac": 0.3, "reject": 0.7,
+        "intruder": 2, "probe": 0.5, "gac": 0.3, "reject": 0.7, "regroup": 0.8,
     },
     "gate": 0.3,  # share of gate instructions in bodies
     "fault": 0.12,  # probability that a body / callback raises
@@ -279,6 +279,12 @@ class Gen:
                 st = self.reject(pool)
             elif k == "ctor_neg":
                 st = {"op": "ctor_neg", "v": r.choice([-1, -2, -10]), "cls": pool["cls"]}
+            elif k == "regroup":
+                # cancel a group and request a new one under the same name within the same handle
+                if pool["cls"] == "T":
+                    new = self.apply(pool) if r.random() < 0.6 else self.map(pool)
+                    new["gname"] = ["reuse_last"]
+                    st = {"op": "seq", "steps": [{"op": "cancel_group", "pool": pool["idx"], "sel": ["live", r.randint(0, 5)]}, new]}
             elif k == "grow_size":
                 st = {"op": "grow_size", "pool": pool["idx"], "by": r.choice([1, 1, 2, 3, None]), "twice": r.random() < 0.4}
             elif k == "set_size":
